@@ -59,17 +59,18 @@ Definition sched_bindings (st : ostep) : list (N * (N * N)) :=
     | _ => []
     end) (st_events st).
 
-(* 907: the node was reserved (pre-state) for other asks only; exempt: the ask requires that node (the
-   required-node path cancels other reservations by design); the reservations were cancelled by the wait
-   timeout in the same cycle (only possible when the history crosses the wait timeout) *)
+(* 907: the node was reserved (pre-state) for other asks only.  It is a violation when one of those
+   reservations is still there after the step, or when they vanished without a legitimate cancellation in the
+   same cycle: cancelReservations on behalf of an ask that requires this node, or the wait timeout (only when
+   the history crosses the wait timeout) *)
 Definition c09_given_away (reswait : bool) (pre : ostate) (st : ostep) : list N :=
   if negb (is_sched (st_op st)) then [] else
   let v := proj09 pre in let v' := proj09 (st_obs st) in
   flat_map (fun b =>
     let '(a, (k, n)) := b in
     if reserved_for_other v n a k then
-      if ask_req v a k =? n then []
-      else if reswait && forallb (fun e => negb (memR e (rv_node v'))) (node_entries v n) then []
+      if existsb (fun e => memR e (rv_node v')) (node_entries v n) then [907]
+      else if (ask_req v a k =? n) || reswait then []
       else [907]
     else []) (sched_bindings st).
 
